@@ -193,6 +193,18 @@ impl Monitor for C10 {
     }
 
     fn generate(&self, rng: &mut Rng, tier: Tier) -> J {
+        if rng.chance(1, if tier == Tier::Thorough { 200 } else { 150 }) {
+            // FollowFileExecutor itself (a child process): what the file holds at start-up (nothing, complete lines, a partial
+            // last line short or longer than a few KiB) and what is appended afterwards
+            let pre = match rng.below(6) { 0 => String::new(), 1 => "old1\nold2\n".to_owned(), 2 => "abc\nxy".to_owned(), 3 => "partial only".to_owned(), 4 => format!("old\n{}", "p".repeat(4090 + rng.below(20))), _ => { let mut p = random_content(rng, Tier::Quick); if rng.chance(1, 2) { p.push_str("tail"); } p } };
+            let content = random_content(rng, Tier::Quick);
+            let n = content.len();
+            let mut cuts: Vec<usize> = (0..rng.below(4)).map(|_| rng.below(n.max(1))).collect();
+            cuts.retain(|c| content.is_char_boundary(*c) && *c > 0); cuts.sort(); cuts.dedup();
+            let mut chunks = Vec::new(); let mut prev = 0;
+            for c in cuts.iter().chain(std::iter::once(&n)) { if *c > prev { chunks.push(json!(content[prev..*c])); prev = *c; } }
+            return json!({"kind": "executor", "pre": pre, "chunks": chunks, "head": rng.chance(1, 3)});
+        }
         let kind = if tier == Tier::Thorough { match rng.below(40) { 0 => "threads", 1 if eng::cli_path().is_some() => "cli", 2 => "from-end", _ => "schedule" } } else { match rng.below(12) { 0 => "from-end", _ => "schedule" } };
         if kind == "schedule" && rng.chance(1, if tier == Tier::Thorough { 300 } else { 3000 }) { let len = *rng.pick(&[8192usize, 65_536, 1 << 20, 1 << 21]) + rng.below(9); return long_case(len, rng.below(3)); }
         let content = random_content(rng, tier);
@@ -220,6 +232,7 @@ impl Monitor for C10 {
         let content = long_content.as_deref().unwrap_or_else(|| case["content"].as_str().unwrap_or(""));
         let cap = case["cap"].as_u64().unwrap_or(8192) as usize;
         if kind == "small" { return self.check_small(content, cap, obs); }
+        if kind == "executor" { return check_executor(case, obs); }
         let cuts: Vec<usize> = case["cuts"].as_array().map(|a| a.iter().filter_map(|x| x.as_u64().map(|v| v as usize)).collect()).unwrap_or_default();
         let idles: Vec<usize> = case["idles"].as_array().map(|a| a.iter().filter_map(|x| x.as_u64().map(|v| v as usize)).collect()).unwrap_or_default();
         let pre = case["pre"].as_str().unwrap_or("");
@@ -355,4 +368,77 @@ fn check_cli(content: &[u8], chunks: &[Vec<u8>], tag: u64, obs: &mut Obs) -> Ver
     if is_prefix && !exited { return Verdict::Inconclusive("cli-timeout".into()); }
     let kind = if is_prefix { "process-exited-early" } else { "output-differs" };
     Verdict::Violated(vec![Violation::new(format!("follow|cli|{}", kind), format!("CLI -f --head printed {} records, expected {}; exited={}", got.len(), want.len(), exited))])
+}
+
+
+// ---------------------------------------------------------------------------------------------
+// the executor level: FollowFileExecutor::new positions the reader (start of the file with head, else its end at start-up)
+// and prints to the console, so it runs in a child process whose stdout the monitor reads
+
+/// child side: file = pre, executor created, then at every end-of-file poll the next chunk is appended; after the last
+/// chunk the iterator is stopped. Prints the executor's records and a final status line.
+pub fn follow_exec_child(case: &J) -> i32 {
+    use sqlgrep::execution::execution_engine::ExecutionEngine;
+    use sqlgrep::executor::{DisplayOptions, FollowFileExecutor, OutputFormat};
+    let pre = materialise_bytes(&case["pre"]);
+    let chunks: Vec<Vec<u8>> = case["chunks"].as_array().map(|a| a.iter().map(materialise_bytes).collect()).unwrap_or_default();
+    let head = case["head"].as_bool().unwrap_or(false);
+    let path = eng::scratch_dir().join("c10-exec.log");
+    if std::fs::write(&path, &pre).is_err() { return 2; }
+    let Ok(tables) = eng::tables_from(crate::monitors::c12::EVERYLINE) else { return 2; };
+    let Ok(stmt) = eng::parse("SELECT l FROM everyline") else { return 2; };
+    let Ok(file) = File::open(&path) else { return 2; };
+    let running = Arc::new(AtomicBool::new(true));
+    let next = Rc::new(RefCell::new(0usize));
+    let (n2, p2) = (next.clone(), path.clone());
+    set_follow_eof(Some(Box::new(move || {
+        let i = *n2.borrow();
+        if i >= chunks.len() { return FollowAction::Stop; }
+        if let Ok(mut f) = OpenOptions::new().append(true).open(&p2) { let _ = f.write_all(&chunks[i]); }
+        *n2.borrow_mut() = i + 1;
+        FollowAction::Continue
+    })));
+    let opts = DisplayOptions { output_format: OutputFormat::Json, single_result: false, print_result: true };
+    let result = match FollowFileExecutor::new(running, file, head, opts, ExecutionEngine::new(&tables, &stmt)) { Ok(mut ex) => ex.execute().map_err(|e| e.to_string()), Err(e) => Err(e.to_string()) };
+    set_follow_eof(None);
+    let _ = std::fs::remove_file(&path);
+    println!("#status {}", match result { Ok(()) => "ok".to_owned(), Err(e) => format!("error {}", e) });
+    0
+}
+
+fn materialise_bytes(j: &J) -> Vec<u8> {
+    if let Some(s) = j.as_str() { return s.as_bytes().to_vec(); }
+    if let Some(h) = j.get("hex").and_then(|h| h.as_str()) { let hs: Vec<char> = h.chars().filter(|c| c.is_ascii_hexdigit()).collect(); return hs.chunks(2).filter(|p| p.len() == 2).map(|p| u8::from_str_radix(&p.iter().collect::<String>(), 16).unwrap_or(0)).collect(); }
+    Vec::new()
+}
+
+/// parent side: what must be printed = the complete lines of (head ? pre + appended : appended, where a partial last line of
+/// pre is completed by the appended bytes but not shown: delivery starts at the first byte appended after start-up)
+fn check_executor(case: &J, obs: &mut Obs) -> Verdict {
+    use std::process::{Command, Stdio};
+    let pre = materialise_bytes(&case["pre"]);
+    let chunks: Vec<Vec<u8>> = case["chunks"].as_array().map(|a| a.iter().map(materialise_bytes).collect()).unwrap_or_default();
+    let head = case["head"].as_bool().unwrap_or(false);
+    let path = eng::write_scratch(&format!("c10-exec-case-{}.json", case_hash(case)), serde_json::to_string(case).unwrap().as_bytes());
+    let exe = std::env::current_exe().expect("current_exe");
+    let out = Command::new(&exe).arg("follow-exec").arg(&path).stdin(Stdio::null()).stdout(Stdio::piped()).stderr(Stdio::null()).env("TZ", "UTC").output();
+    let _ = std::fs::remove_file(&path);
+    let Ok(out) = out else { return Verdict::Inconclusive("child-process-failed".into()) };
+    let text = String::from_utf8_lossy(&out.stdout).into_owned();
+    let Some(status) = text.lines().find(|l| l.starts_with("#status ")) else { return Verdict::Violated(vec![Violation::new(format!("follow|executor|{}|child-died", if head { "head" } else { "end" }), format!("the child ended without a status line (exit {:?}); output {:?}", out.status.code(), text.chars().take(200).collect::<String>()))]) };
+    obs.evals += 1;
+    obs.hit(if head { "executor:head" } else { "executor:from-end" });
+    let mut appended: Vec<u8> = Vec::new();
+    for c in &chunks { appended.extend_from_slice(c); }
+    let total: Vec<u8> = if head { let mut t = pre.clone(); t.extend_from_slice(&appended); t } else { appended.clone() };
+    let want: Vec<String> = expected_lines(&total, 0).into_iter().map(|l| String::from_utf8_lossy(&l).into_owned()).collect();
+    let got: Vec<String> = text.lines().filter(|l| !l.is_empty() && !l.starts_with("#status")).map(|l| serde_json::from_str::<J>(l).ok().and_then(|j| j.get("l").and_then(|v| v.as_str().map(|s| s.to_owned()))).unwrap_or_else(|| format!("<unparsable {}>", l))).collect();
+    if want.len() >= 2 && !pre.is_empty() { obs.nontrivial(); }
+    let mode = if head { "head" } else { "end" };
+    if status != "#status ok" { return Verdict::Violated(vec![Violation::new(format!("follow|executor|{}|error", mode), status.to_owned())]); }
+    if got != want {
+        let kind = if got.len() < want.len() { "lines-missing" } else if got.len() > want.len() { "lines-extra" } else { "content-differs" };
+        return Verdict::Violated(vec![Violation::new(format!("follow|executor|{}|{}", mode, kind), format!("file held {:?} at start-up, then {:?} was appended: printed {:?}, expected {:?}", String::from_utf8_lossy(&pre), String::from_utf8_lossy(&appended).chars().take(80).collect::<String>(), got.iter().take(4).collect::<Vec<_>>(), want.iter().take(4).collect::<Vec<_>>()))]);
+    }
+    Verdict::Held
 }
